@@ -50,11 +50,18 @@ type listenerB struct {
 	mu      sync.Mutex
 	got     []string // hex of received messages
 	gotTS   []int32
-	stopped atomic.Bool // set after the stop function returned
-	late    []string    // messages that arrived after stop returned
+	stopped atomic.Bool  // set after the stop function returned
+	late    []string     // messages that arrived after stop returned
+	gate    atomic.Value // chan struct{}: the next callback blocks until it is closed
+	inside  atomic.Bool  // a callback is blocked at the gate
 }
 
 func (l *listenerB) recv(b []byte, ts int32) {
+	if g, ok := l.gate.Load().(chan struct{}); ok && g != nil {
+		l.inside.Store(true)
+		<-g
+		l.inside.Store(false)
+	}
 	h := fmt.Sprintf("%X", b)
 	l.mu.Lock()
 	if l.stopped.Load() {
@@ -313,6 +320,79 @@ func runB(c CaseB) (res ev.Result) {
 			if s := checkOutLog(false); s != "" {
 				return fail("%s", s)
 			}
+		case "DriverCloseWhileOpening":
+			// Driver.Close (closes all open ports) runs while another port of the same driver is
+			// being opened from a second goroutine; afterwards a quiet Driver.Close must leave
+			// every port of the driver closed.
+			if outOpen {
+				if s := checkOutLog(false); s != "" {
+					return fail("%s", s)
+				}
+			}
+			other := outs[(c.OutPort+1)%2]
+			var wg sync.WaitGroup
+			var blocked atomic.Value
+			wg.Add(2)
+			var gate chan struct{}
+			closeDelay, openDelay := 2*time.Millisecond, time.Duration(op.N)*100*time.Microsecond
+			if active != nil && inOpen {
+				// owned schedule: the listener callback is held at a gate, so that Driver.Close is
+				// busy closing the in-port exactly while the other port is opened
+				gate = make(chan struct{})
+				active.gate.Store(gate)
+				m := liveMsg(nextID)
+				nextID++
+				maybeIn[fmt.Sprintf("%X", m)] = true
+				fmt.Fprintf(fifo, "%d %X\n", 1, m)
+				l := active
+				if s := waitFor("callback not reached", func() bool { return l.inside.Load() }); s != "" {
+					close(gate)
+					panic("harness: the gated listener callback was not reached")
+				}
+				closeDelay, openDelay = 0, 40*time.Millisecond
+			}
+			go func() {
+				defer wg.Done()
+				time.Sleep(closeDelay)
+				if p := ev.TryTimeout(callTimeout, func() { drv.Close() }); p != "" {
+					blocked.Store("Driver.Close: " + p)
+				}
+			}()
+			go func() {
+				defer wg.Done()
+				time.Sleep(openDelay)
+				if p := ev.TryTimeout(callTimeout, func() { other.Open() }); p != "" {
+					blocked.Store("Open of another port during Driver.Close: " + p)
+				}
+			}()
+			if gate != nil {
+				time.Sleep(120 * time.Millisecond)
+				active.gate.Store((chan struct{})(nil))
+				close(gate)
+			}
+			wg.Wait()
+			if active != nil {
+				// closing the port ended this listening
+				active.markSeen(active.snapshot())
+				active.stopped.Store(true)
+				active = nil
+			}
+			if b := blocked.Load(); b != nil {
+				return fail("%v", b)
+			}
+			if s := call(where+" second Driver.Close", func() { drv.Close() }); s != "" {
+				return fail("%s", s)
+			}
+			for i, p := range []drivers.Port{ins[0], ins[1], outs[0], outs[1]} {
+				if p.IsOpen() {
+					return fail("port %d (%s) is still open after Driver.Close returned (it was opened while an earlier Driver.Close was running and has been lost from the driver's list)", i, p)
+				}
+			}
+			inOpen, outOpen = false, false
+			if fifo != nil {
+				fifo.Close()
+				fifo = nil
+			}
 		case "OpenIn":
 			gen++
 			os.Setenv("MIDICAT_STANDIN_GEN", fmt.Sprint(gen))
@@ -546,6 +626,9 @@ func genB(t *rapid.T) CaseB {
 		if outOpen {
 			kinds = append(kinds, "CloseOut", "Send", "Send", "CloseOutWhileSending")
 		}
+		if outOpen || inOpen {
+			kinds = append(kinds, "DriverCloseWhileOpening")
+		}
 		if inOpen {
 			kinds = append(kinds, "Inject", "Inject")
 			if listening {
@@ -572,6 +655,9 @@ func genB(t *rapid.T) CaseB {
 			op.PerSender = rapid.IntRange(5, 40).Draw(t, "perSender")
 			op.N = rapid.IntRange(0, 20).Draw(t, "closeAfter100us")
 			outOpen = false
+		case "DriverCloseWhileOpening":
+			op.N = rapid.IntRange(0, 40).Draw(t, "openOffset100us") // when the other port is opened, relative to the start of Driver.Close
+			inOpen, outOpen, listening = false, false, false
 		case "OpenIn":
 			inOpen = true
 			op.Again = rapid.IntRange(0, 3).Draw(t, "twice") == 0
@@ -599,7 +685,7 @@ func genB(t *rapid.T) CaseB {
 }
 
 var partB = ev.NewCheck("C17", "midicatdrv-histories",
-	"rapid (run in the race-detector build): histories of 4..25 operations on the process-backed driver against the stand-in helper binary: out.Open/Close (also twice), bursts of 1..4 concurrent sender goroutines with 1..12 messages each, out.Close while senders are running, in.Open/Close (also twice), In.Listen or midi.ListenTo, stop (also twice, also while records are flowing), injection of 1..30 records (3-byte and 2-byte messages, unique time stamps) into the helper; the harness is the cable (it reads what the out helper received and writes what the in helper emits); oracle: every line sent with a nil result on the open port reaches the helper exactly once and per sender in order, Send on a closed port gives ErrPortClosed and nothing arrives, records injected while a listener is active (and drained) reach exactly that listener once and in order (in-flight records from a listener-less gap may precede them, at most once), a stopped listener is never called again, Listen works again after stop, Listen on a closed port does not block or panic, Open/Close/stop are idempotent, every call returns within 20 s, no panic, no data race report; non-trivial = >= 2 concurrent senders and a stop while records are flowing; distinct by case hash",
+	"rapid (run in the race-detector build): histories of 4..25 operations on the process-backed driver against the stand-in helper binary: out.Open/Close (also twice), bursts of 1..4 concurrent sender goroutines with 1..12 messages each, out.Close while senders are running, in.Open/Close (also twice), In.Listen or midi.ListenTo, stop (also twice, also while records are flowing), Driver.Close racing with the Open of another port (followed by a quiet Driver.Close after which every port must be closed), injection of 1..30 records (3-byte and 2-byte messages, unique time stamps) into the helper; the harness is the cable (it reads what the out helper received and writes what the in helper emits); oracle: every line sent with a nil result on the open port reaches the helper exactly once and per sender in order, Send on a closed port gives ErrPortClosed and nothing arrives, records injected while a listener is active (and drained) reach exactly that listener once and in order (in-flight records from a listener-less gap may precede them, at most once), a stopped listener is never called again, Listen works again after stop, Listen on a closed port does not block or panic, Open/Close/stop are idempotent, every call returns within 20 s, no panic, no data race report; non-trivial = >= 2 concurrent senders and a stop while records are flowing; distinct by case hash",
 	genB, runB)
 
 // TestRaceMidicatHistories runs in the race build only (bin/verif starts that binary with VERIF_RACE=1).
